@@ -879,6 +879,14 @@ func ruleNUMAUTH(c *Ctx) []Obligation {
 			// counters: variables incremented in this function (x++ or *x++)
 			counters := map[types.Object]bool{}
 			ast.Inspect(fd.Body, func(n ast.Node) bool {
+				// the index of a range loop counts positions like an incremented variable does
+				if rs, ok := n.(*ast.RangeStmt); ok && rs.Key != nil {
+					if _, isMap := info.TypeOf(rs.X).Underlying().(*types.Map); !isMap {
+						if id, ok := rs.Key.(*ast.Ident); ok && id.Name != "_" {
+							counters[info.ObjectOf(id)] = true
+						}
+					}
+				}
 				if s, ok := n.(*ast.IncDecStmt); ok && s.Tok == token.INC {
 					e := unparen(s.X)
 					if st, ok := e.(*ast.StarExpr); ok {
@@ -967,6 +975,23 @@ func ruleNUMAUTH(c *Ctx) []Obligation {
 				case types.IsInterface(t):
 					// namedVar: decided by the enclosing method's receiver
 					space = c.idSpaceOfMethod(fn, map[*types.Func]bool{}, 0)
+				default:
+					// a value that embeds an identifier (param.SetID(i) with *ir.Param): the space
+					// of the identifier type that declares the promoted SetID
+					if se, ok := unparen(call.Fun).(*ast.SelectorExpr); ok {
+						if sel, ok := info.Selections[se]; ok {
+							if m, ok := sel.Obj().(*types.Func); ok {
+								if r := m.Type().(*types.Signature).Recv(); r != nil {
+									switch {
+									case isNamed(r.Type(), pkgIR, "GlobalIdent"):
+										space = "global"
+									case isNamed(r.Type(), pkgIR, "LocalIdent"):
+										space = "local"
+									}
+								}
+							}
+						}
+					}
 				}
 				for _, sp := range strings.Split(space, "+") {
 					auths = append(auths, auth{fn, call.Pos(), sp})
